@@ -82,4 +82,48 @@ theorem guarded_read_safe (n : String) (b : Bool) : safe [.bind n, .guard n, .re
 theorem late_guard_refused (n : String) (b : Bool) : safe [.bind n, .resize, .guard n, .write n b] = false := by
   simp [safe, run, step, upd]
 
+/-! ### general facts about the discipline (for arbitrary event lists) -/
+
+/-- running a list of events is running its parts one after the other -/
+theorem run_append (s : S) (pre post : List Ev) : run s (pre ++ post) = (run s pre).bind fun s' => run s' post := by
+  induction pre generalizing s with
+  | nil => simp [run]
+  | cons e es ih =>
+    simp only [List.cons_append, run]
+    cases step s e with
+    | none => simp
+    | some s' => simp [ih]
+
+/-- the discipline is prefix-closed: what is safe stays safe when cut short -/
+theorem safe_prefix (pre post : List Ev) (h : safe (pre ++ post) = true) : safe pre = true := by
+  unfold safe at *
+  rw [run_append] at h
+  cases hp : run ⟨0, []⟩ pre with
+  | none => rw [hp] at h; simp at h
+  | some s => simp
+
+/-- exactly when a write is allowed: the name is known, not stale, and - inside a loop - guarded unconditionally -/
+theorem write_ok_iff (s : S) (n : String) (b : Bool) :
+    (step s (.write n b)).isSome = true ↔
+      ∃ x, s.names.find? (·.n == n) = some x ∧ x.stale = false ∧ (b = true → x.st = .guarded) := by
+  unfold step
+  simp only
+  generalize List.find? (fun x => x.n == n) s.names = r
+  cases r with
+  | none => simp
+  | some x =>
+    by_cases hs : x.stale = true
+    · simp [hs]
+    · by_cases hb : b = true
+      · by_cases hg : x.st = .guarded <;> simp [hs, hb, hg]
+      · simp [hs, hb]
+
+/-- a resize makes every name stale that is neither guarded nor guarded inside the open conditional block - and no other -/
+theorem resize_stales (s s' : S) (h : step s .resize = some s') :
+    s'.depth = s.depth ∧ s'.names = s.names.map fun x => if x.st = .guarded ∨ x.st = .cond then x else { x with stale := true } := by
+  unfold step at h
+  injection h with h
+  subst h
+  exact ⟨rfl, rfl⟩
+
 end Py.SrcReads
